@@ -244,8 +244,14 @@ func (c *AdapterProxy) doKeepAlive() {
 	if c.closed {
 		return
 	}
+	// several proxy objects share the adapter and each call stores its own proxy here:
+	// count the ping on one and the same proxy from beginning to end
+	sp := c.servantProxy
+	if sp == nil {
+		return
+	}
 
-	if c.servantProxy.queueLen > c.comm.Client.ObjQueueMax {
+	if sp.queueLen > c.comm.Client.ObjQueueMax {
 		return
 	}
 
@@ -256,21 +262,21 @@ func (c *AdapterProxy) doKeepAlive() {
 	c.lastKeepAliveTime = now
 
 	req := requestf.RequestPacket{
-		IVersion:     c.servantProxy.version,
+		IVersion:     sp.version,
 		CPacketType:  basef.TARSONEWAY,
-		IRequestId:   c.servantProxy.genRequestID(),
-		SServantName: c.servantProxy.name,
+		IRequestId:   sp.genRequestID(),
+		SServantName: sp.name,
 		SFuncName:    "tars_ping",
-		ITimeout:     int32(c.servantProxy.timeout),
+		ITimeout:     int32(sp.timeout),
 	}
-	msg := &Message{Req: &req, Ser: c.servantProxy}
+	msg := &Message{Req: &req, Ser: sp}
 	msg.Init()
 
 	msg.Adp = c
-	atomic.AddInt32(&c.servantProxy.queueLen, 1)
+	atomic.AddInt32(&sp.queueLen, 1)
 	defer func() {
 		CheckPanic()
-		atomic.AddInt32(&c.servantProxy.queueLen, -1)
+		atomic.AddInt32(&sp.queueLen, -1)
 	}()
 	if err := c.Send(msg.Req); err != nil {
 		c.failAdd()
